@@ -458,12 +458,12 @@ def conn_case(rng):
     return ops
 
 
-def keepalive_case(rng):
+def keepalive_case(rng, kind=None, fb=None):
     """C09: an idle connection is closed after the CONFIGURED timeout; a held keep-alive substream keeps it."""
     t0 = rng.choice([400, 600, 800])
     t1 = rng.choice([t0, t0, 1000, 700])
     tmin = min(t0, t1)
-    kind = rng.choice(["idle", "idle", "ping", "held", "held-notif", "libp2p"])
+    kind = kind or rng.choice(["idle", "idle", "ping", "held", "held-notif", "libp2p", "held-rr", "held-rr"])
     a = base_cfg(0, t0, user=[user()])
     b = base_cfg(1, t1, user=[user()])
     if kind == "ping":
@@ -476,8 +476,18 @@ def keepalive_case(rng):
     if kind == "held-notif":
         a["notif"] = [{"name": "/n/a", "max": 256, "hs": "01", "fb": [], "mode": "a"}]
         b["notif"] = [{"name": "/n/a", "max": 256, "hs": "02", "fb": [], "mode": "a"}]
+    if kind == "held-rr":
+        # a pending inbound request is an open substream of a keep-alive protocol — also when it was negotiated under a
+        # FALLBACK name of the responder's protocol (seeded C09-d1: ProtocolSet resolved fallback names to keep-alive No)
+        fb = rng.random() < 0.7 if fb is None else fb
+        a["rr"] = [{"name": "/r/new" if fb else "/r/a", "max": 256, "timeout": 3000, "fb": ["/r/a"] if fb else [], "maxin": None}]
+        b["rr"] = [{"name": "/r/a", "max": 256, "timeout": 3000, "fb": [], "maxin": None}]
     ops = [render_node(a), render_node(b), rng.choice(["dialaddr 1 0 r0", "dialaddr 0 1 r0"]), "await 0 app E1 2000", "await 1 app E0 2000"]
-    if kind in ("idle", "ping", "libp2p"):
+    if kind == "held-rr":
+        n0 = a["rr"][0]["name"]
+        ops += ["request 1 /r/a 0 10 1", f"await 0 r:{n0} Q1 2000", f"wait {tmin + 700}", "events 0", "events 1",
+                f"respond 0 {n0} 0 5 101", "wait 1400", "events 0", "events 1"]
+    elif kind in ("idle", "ping", "libp2p"):
         ops += [f"wait {max(tmin - 250, 50)}", "events 0", "events 1", f"wait {1500 + 250}", "events 0", "events 1"]
     elif kind == "held":
         ops += ["open_sub 0 /u/a 1", "await 1 u:/u/a O0 2000", f"wait {tmin + 700}", "events 0", "events 1",
@@ -606,7 +616,7 @@ FOCUS = {
     "C06": [("limits", 10), ("dial", 3)],
     "C07": [("conn", 12)],
     "C08": [("conn", 10), ("identify", 3)],
-    "C09": [("keepalive", 14)],
+    "C09": [("keepalive", 9)],
     "C11": [("notif", 14)],
     "C12": [("notif", 12)],
     "C13": [("reqresp", 16)],
@@ -633,6 +643,9 @@ def gen_cases(rng, tier, focus=None):
     cases += [wiring_case(rng) for _ in range(30 * scale)]
     for fam, n in FOCUS.get(focus, FOCUS[None]):
         cases += [FAMILIES[fam](rng) for _ in range(n * scale)]
+    if focus == "C09":
+        # every kind at every seed
+        cases += [keepalive_case(rng, kind=k, fb=True) for k in ("idle", "ping", "held", "held-notif", "libp2p", "held-rr", "held-rr")]
     return cases
 
 
@@ -1006,6 +1019,8 @@ def oracle_c09(case, out):
     released = {0: True, 1: True}
     waited = 0
     dial_at = None
+    pending_req = answered = False   # a request delivered to the responder and not yet answered (timeouts here are long)
+    req_seen = False
     for i, t, o in tr.ops():
         if t[0] in ("close",):
             other_cause = True
@@ -1016,6 +1031,10 @@ def oracle_c09(case, out):
             waited = 0
         if t[0] in ("request", "notify", "respond", "reject", "cancel", "addknown", "node") and dial_at is not None:
             active = True
+        if t[0] == "request" and o.startswith("ok q") and "dial" not in t[6:]:
+            pending_req = True
+        if t[0] in ("respond", "reject", "cancel") and o == "ok":
+            answered = True
         if t[0] in ("open_sub", "open_notif") and o == "ok":
             active = True
             held_since = i if held_since is None else held_since
@@ -1028,6 +1047,8 @@ def oracle_c09(case, out):
             waited += int(t[1])
         if t[0] == "events" and len(t) == 2 and t[1].isdigit() and dial_at is not None and not other_cause:
             node = int(t[1])
+            if any(x.startswith("Q") for src, l in parse_events(o).items() if src.startswith("r:") for x in l):
+                req_seen = True
             toks = parse_events(o).get("app", [])
             for x in toks:
                 m = re.match(r"C(\d+|\?)#(\d+|\?)@(\d+)", x)
@@ -1040,6 +1061,10 @@ def oracle_c09(case, out):
                 if not active and ms > tmin + KA_LATE:
                     _v(bad, case, out, "idle-closed-late", f"node {node}: an idle connection was closed only after {ms} ms; configured "
                        f"keep-alive timeouts {kas[0]} ms / {kas[1]} ms", i)
+                if pending_req and req_seen and not answered and ms < 2500:
+                    _v(bad, case, out, "closed-while-held", f"node {node}: the connection was closed by the idle mechanism after {ms} ms while an "
+                       "inbound request (an open substream of a keep-alive request-response protocol, possibly negotiated under a "
+                       "fallback name) was waiting for its response", i)
                 if held_since is not None and not all(released.values()):
                     _v(bad, case, out, "closed-while-held", f"node {node}: the connection was closed by the idle mechanism while a substream of a "
                        f"keep-alive protocol was held (opened at step {held_since}, not yet released on both ends)", i)
